@@ -33,12 +33,15 @@ BUILD_FLAGS = {
     "race": ["-race"],
     "gcstress": ["-gcflags=all=-d=checkptr"],
     "asan": ["-asan"],
+    # observe-only pass: which library functions / statements the workload reached
+    "cover": ["-cover", "-coverpkg=github.com/Clement-Jean/go-art,verif/..."],
 }
 RUN_ENV = {
     "plain": {},
     "race": {},  # GORACE is set per shard (log_path)
     "gcstress": {"GOGC": "1", "GODEBUG": "clobberfree=1"},
     "asan": {"ASAN_OPTIONS": "halt_on_error=1:abort_on_error=0:detect_leaks=0"},
+    "cover": {},
 }
 
 
@@ -66,7 +69,7 @@ def build_worker(scratch, mode):
             f.write(txt)
         shutil.copy(os.path.join(HARNESS, "go.sum"), os.path.join(scratch, "alt.sum"))
         cmd += ["-modfile=" + modfile]
-    ov = portable_overlay(scratch, repo)
+    ov = None if mode == "cover" else portable_overlay(scratch, repo)  # the cover tool does not read overlays
     if ov:
         cmd += ["-overlay", ov]
     cmd += ["-o", out, "./cmd/worker"]
@@ -206,6 +209,46 @@ def race_reports(shard_dir):
     return blocks, dedup
 
 
+def library_coverage(jobs):
+    """Merge the coverage counters of the cover-mode shards and report, for the library package
+    only, total statement coverage and the functions that were not fully covered."""
+    dirs = [j["env"]["GOCOVERDIR"] for j in jobs if os.path.isdir(j["env"].get("GOCOVERDIR", "")) and os.listdir(j["env"]["GOCOVERDIR"])]
+    if not dirs:
+        return None
+    env = dict(os.environ)
+    env.update(GOENV)
+    p = subprocess.run(["go", "tool", "covdata", "func", "-i=" + ",".join(dirs)], cwd=HARNESS, env=env,
+                       stdout=subprocess.PIPE, stderr=subprocess.PIPE, text=True)
+    if p.returncode != 0:
+        return {"error": p.stderr[-500:]}
+    funcs, partial = 0, {}
+    for line in p.stdout.splitlines():
+        parts = line.split()
+        if len(parts) != 3 or not parts[0].startswith("github.com/Clement-Jean/go-art/"):
+            continue
+        name = parts[0].split("/")[-1] + " " + parts[1]
+        if "verif_" in parts[0]:
+            continue  # the hooks themselves
+        try:
+            pct = float(parts[2].rstrip("%"))
+        except ValueError:
+            continue
+        funcs += 1
+        if pct < 100.0:
+            partial[name] = pct
+    q = subprocess.run(["go", "tool", "covdata", "percent", "-i=" + ",".join(dirs)], cwd=HARNESS, env=env,
+                       stdout=subprocess.PIPE, stderr=subprocess.PIPE, text=True)
+    total = None
+    for line in q.stdout.splitlines():
+        if line.strip().startswith("github.com/Clement-Jean/go-art\t") or line.strip().startswith("github.com/Clement-Jean/go-art "):
+            try:
+                total = float(line.split("coverage:")[1].split("%")[0])
+            except (IndexError, ValueError):
+                pass
+    return {"statement_percent_of_package_incl_hooks": total, "functions_seen": funcs,
+            "functions_not_fully_covered": dict(sorted(partial.items(), key=lambda kv: kv[1])[:60])}
+
+
 def main(argv):
     if len(argv) < 3:
         log(__doc__)
@@ -261,7 +304,8 @@ def run(prop, spec, tier, seed, replay, scratch, nproc, t0):
     watchdog = spec.get("watchdog", {}).get(tier, 1500 if tier == "quick" else 14000)
     jobs = []
     for m in modes:
-        base = [workers[m], "-prop", prop, "-tier", tier, "-seed", str(seed), "-mode", m]
+        wtier = "quick" if m == "cover" else tier  # the coverage pass repeats the quick workload
+        base = [workers[m], "-prop", prop, "-tier", wtier, "-seed", str(seed), "-mode", m]
         env = dict(RUN_ENV[m])
         env.update(spec.get("env", {}))
         if replay:
@@ -269,7 +313,7 @@ def run(prop, spec, tier, seed, replay, scratch, nproc, t0):
             jobs.append(dict(cmd=base + ["-unit", replay["unit"], "-out", d], env=env, dir=d, watchdog=watchdog, mode=m))
             continue
         if spec.get("per_unit"):
-            units = list_units(workers[m], prop, tier, seed, m)
+            units = list_units(workers[m], prop, wtier, seed, m)
             for i, u in enumerate(units):
                 d = os.path.join(scratch, "%s-unit-%d" % (m, i))
                 jobs.append(dict(cmd=base + ["-unit", u, "-out", d], env=dict(env), dir=d, watchdog=watchdog, mode=m, unit=u))
@@ -278,6 +322,9 @@ def run(prop, spec, tier, seed, replay, scratch, nproc, t0):
                 d = os.path.join(scratch, "%s-shard-%d" % (m, i))
                 jobs.append(dict(cmd=base + ["-shard", str(i), "-shards", str(nproc), "-out", d], env=dict(env), dir=d, watchdog=watchdog, mode=m))
     for j in jobs:
+        if j["mode"] == "cover":
+            j["env"]["GOCOVERDIR"] = os.path.join(j["dir"], "cov")
+            os.makedirs(j["env"]["GOCOVERDIR"], exist_ok=True)
         if j["mode"] == "race":
             j["env"]["GORACE"] = "halt_on_error=0 history_size=7 log_path=%s" % os.path.join(j["dir"], "race")
     run_jobs(jobs, spec.get("parallel", nproc))
@@ -332,6 +379,8 @@ def run(prop, spec, tier, seed, replay, scratch, nproc, t0):
             races_total += len(blocks)
             for k, b in dd.items():
                 races_dedup.setdefault(k, (b, j))
+
+    libcov = library_coverage([j for j in jobs if j["mode"] == "cover"]) if "cover" in modes else None
 
     findings, fixed = load_known()
     os.makedirs(os.path.join(VERIF, "replays"), exist_ok=True)
@@ -415,6 +464,8 @@ def run(prop, spec, tier, seed, replay, scratch, nproc, t0):
         coverage["race_reports_total"] = races_total
         coverage["race_reports_distinct_library"] = len(lib_races)
         coverage["race_reports_harness_only"] = 1 if harness_races else 0
+    if libcov:
+        coverage["library_coverage_of_quick_workload"] = libcov
     if spec.get("exhaustive_note"):
         coverage["exhaustive_note"] = spec["exhaustive_note"]
     if merged["notes"]:
